@@ -22,6 +22,7 @@
 //
 // usage: sess_drv exh  <loc> <expire> <storage> <jar> <depth> <maxops> [keys]
 //        sess_drv rand <loc> <expire> <storage> <jar> <browsers> <requests> <execs>
+//        sess_drv same <loc> <expire> <storage> <jar>          (same-length replacement of every value family member)
 //        sess_drv script <loc> <expire> <storage> <jar>        (script on stdin)
 #include "common/vtrace.h"
 #include "common/fakeclock.h"
@@ -34,6 +35,8 @@
 #include <cppcms/base64.h>
 #include <cppcms/crypto.h>
 #include <cppcms/cppcms_error.h>
+#include <cppcms/serialization.h>
+#include <cppcms/util.h>
 #include "session_memory_storage.h"
 #include "session_posix_file_storage.h"
 #include "hmac_encryptor.h"
@@ -82,19 +85,53 @@ static char const *kind_of(std::string const &c)
 }
 
 // ---------------------------------------------------------------- values
-static std::string mkval(long n,bool big)
-{
-	std::ostringstream o;
-	if(big) { o<<"V"<<n<<"_"; return o.str()+std::string(120,'x'); }
-	o<<"v"<<n; return o.str();
-}
-static long unval(std::string const &s)
+// Session values are *byte strings*, drawn from an adversarial family (NUL first / in the middle / last, values that
+// are equal as C strings but differ behind a NUL, differ only in the last byte, only in bytes >= 0x80, and the blobs
+// store_data() writes for a serializable object whose members changed without changing the serialized size).  Two
+// values of one family member always have the same length (the serial number is a fixed-width tag), so "replace v
+// by v' of the same length" is one more operation.  In the trace a value is its interned id (same bytes <=> same id;
+// 0 = empty string): a value read back that was never written gets an id of its own and cannot match.
+struct blob_a : public cppcms::serializable {       // [len=4][int][len=8][double]
+	int hits; double d;
+	void serialize(cppcms::archive &a) { a & hits & d; }
+};
+struct blob_b : public cppcms::serializable {       // [len=4][int][len=9][9 characters]
+	int a0; std::string name;
+	void serialize(cppcms::archive &a) { a & a0 & name; }
+};
+static const int NFAM=10;
+static std::map<std::string,int> val_ids;
+static std::map<std::string,int> val_fam;
+static int vid(std::string const &s)
 {
 	if(s.empty()) return 0;
-	if(s[0]!='v' && s[0]!='V') return -1;
-	long n=atol(s.c_str()+1);
-	if(n<=0) return -1;
-	return (mkval(n,s[0]=='V')==s) ? n : -1;
+	std::map<std::string,int>::iterator p=val_ids.find(s);
+	if(p!=val_ids.end()) return p->second;
+	int id=(int)val_ids.size()+1;
+	val_ids[s]=id;
+	return id;
+}
+static std::string famval(long n,int fam,bool big)
+{
+	char tag[16]; snprintf(tag,sizeof(tag),"%06ld",n%1000000);
+	std::string t(tag,6), hi;
+	for(int i=0;i<6;i++) hi+=char(0x80+(tag[i]-'0')*7);
+	std::string r;
+	switch(fam) {
+	case 0: r="T"+t; break;                                        // plain text
+	case 1: r=std::string("\0",1)+t; break;                        // NUL is the first byte
+	case 2: r=std::string("ab\0",3)+t; break;                      // equal as C strings, differ behind the NUL
+	case 3: r=t+std::string("\0",1); break;                        // NUL is the last byte
+	case 4: r=std::string("k\0same\0",7)+t.substr(0,5)+std::string(1,char(1+n%250)); break; // (mostly) only the last byte differs
+	case 5: r=std::string("\0\x80",2)+hi; break;                   // differ only in bytes >= 0x80, behind a NUL
+	case 6: r=std::string("\xff\xfe",2)+hi; break;                 // bytes >= 0x80, no NUL
+	case 7: { blob_a o; o.hits=(int)n; o.d=n*0.5; cppcms::serialization_traits<blob_a>::save(o,r); } break;
+	case 8: { blob_b o; o.a0=7; o.name="n:"+t+"!"; cppcms::serialization_traits<blob_b>::save(o,r); } break;
+	default: r=t.substr(0,3)+std::string("\0\0",2)+t.substr(3); break;   // two NULs in the middle
+	}
+	if(big) r+=std::string(120,'x');
+	val_fam[r]=fam;
+	return r;
 }
 
 // ---------------------------------------------------------------- storage decorator
@@ -277,14 +314,29 @@ static void end_world()
 }
 
 // ---------------------------------------------------------------- ops
-struct op { int kind; std::string k; bool big; int t; };   // kind: 0 set 1 erase 2 clear 3 expose 4 hide 5 age 6 how 7 srv 8 reset
+struct op { int kind; std::string k; bool big; int t; };   // kind: 0 set (t = family member, -1 = rotate) 1 erase 2 clear 3 expose 4 hide 5 age 6 how 7 srv 8 reset
+                                                            //       9 replace the value of k by another one of the same length (same family member)
 static op mkop(int kind,std::string const &k="",bool big=false,int t=0) { op o; o.kind=kind; o.k=k; o.big=big; o.t=t; return o; }
 
 static void apply(session_interface &s,op const &o)
 {
 	vt::J j; j.s("e","Op");
 	switch(o.kind) {
-	case 0: { long n=++vcounter; s.set(o.k,mkval(n,o.big)); j.s("op","set").s("k",o.k).i("v",n).b("big",o.big); } break;
+	case 0: case 9: {
+		long n=++vcounter;
+		int fam = o.t>=0 ? o.t%NFAM : (int)(n%NFAM);
+		bool big=o.big, same=false;
+		if(o.kind==9 && s.is_set(o.k)) {
+			std::string cur=s.get(o.k);
+			std::map<std::string,int>::iterator p=val_fam.find(cur);
+			if(p!=val_fam.end()) { fam=p->second; big=cur.size()>100; same=true; }
+		}
+		std::string v=famval(n,fam,big);
+		if(same && v==s.get(o.k)) v=famval(n=++vcounter,fam,big);
+		if(fam==7 && !big) { blob_a ob; ob.hits=(int)n; ob.d=n*0.5; s.store_data(o.k,ob); }      // through the public store_data()
+		else s.set(o.k,v);
+		j.s("op","set").s("k",o.k).i("v",vid(v)).b("big",big).i("fam",fam).b("same",same).i("len",(long)v.size());
+	} break;
 	case 1: s.erase(o.k); j.s("op","erase").s("k",o.k); break;
 	case 2: s.clear(); j.s("op","clear"); break;
 	case 3: s.expose(o.k); j.s("op","expose").s("k",o.k); break;
@@ -352,7 +404,7 @@ static void request(int b,std::vector<op> const &ops,bool eq_drop=false)
 			std::ostringstream m; m<<'['; bool first=true;
 			for(std::set<std::string>::iterator p=ks.begin();p!=ks.end();++p) {
 				if(!first) m<<','; first=false;
-				m<<vt::J().s("k",*p).i("v",unval(s.get(*p))).b("x",s.is_exposed(*p)).str();
+				m<<vt::J().s("k",*p).i("v",vid(s.get(*p))).b("x",s.is_exposed(*p)).str();
 			}
 			m<<']';
 			tr.line(vt::J().s("e","Loaded").b("ok",ok).raw("m",m.str()).i("age",s.age()).i("how",s.expiration()).b("srv",s.on_server()).str());
@@ -368,7 +420,7 @@ static void request(int b,std::vector<op> const &ops,bool eq_drop=false)
 			if(i) sc<<',';
 			setc const &c=ad.sets[i];
 			vt::J j; j.s("n",c.key);
-			if(c.key.empty()) j.i("v",intern(c.val)); else j.i("v",unval(c.val));
+			if(c.key.empty()) j.i("v",intern(c.val)); else j.i("v",vid(cppcms::util::urldecode(c.val)));
 			j.i("ma",c.ma).b("del",c.del);
 			sc<<j.str();
 		}
@@ -381,7 +433,7 @@ static void request(int b,std::vector<op> const &ops,bool eq_drop=false)
 		std::ostringstream xc; xc<<'['; bool first=true;
 		for(std::map<std::string,cookie_t>::iterator p=jar.xc.begin();p!=jar.xc.end();++p) {
 			if(!first) xc<<','; first=false;
-			xc<<vt::J().s("k",p->first).i("v",unval(p->second.val)).str();
+			xc<<vt::J().s("k",p->first).i("v",vid(cppcms::util::urldecode(p->second.val))).str();
 		}
 		xc<<']';
 		tr.line(vt::J().s("e","Jar").raw("xc",xc.str()).str());
@@ -407,8 +459,9 @@ static std::vector<op> alphabet;
 static void build_alphabet(int keys,bool client)
 {
 	alphabet.clear();
-	alphabet.push_back(mkop(0,"a",false));
-	alphabet.push_back(mkop(0,"a",true));
+	alphabet.push_back(mkop(0,"a",false,-1));
+	alphabet.push_back(mkop(0,"a",true,-1));
+	alphabet.push_back(mkop(9,"a",false,-1));      // same-length replacement of a
 	alphabet.push_back(mkop(1,"a"));
 	alphabet.push_back(mkop(2));
 	alphabet.push_back(mkop(3,"a"));
@@ -423,7 +476,7 @@ static void build_alphabet(int keys,bool client)
 	}
 	alphabet.push_back(mkop(8));
 	if(keys>1) {
-		alphabet.push_back(mkop(0,"b",false));
+		alphabet.push_back(mkop(0,"b",false,-1));
 		alphabet.push_back(mkop(3,"b"));
 	}
 }
@@ -478,7 +531,8 @@ static op random_op(vt::rng &R,int keys,bool client)
 	for(;;) {
 		unsigned c=R(100);
 		std::string k=K[R(keys)];
-		if(c<30) return mkop(0,k,R.chance(1,4));
+		if(c<22) return mkop(0,k,R.chance(1,4),-1);
+		if(c<30) return mkop(9,k,false,-1);
 		if(c<38) return mkop(1,k);
 		if(c<44) return mkop(2);
 		if(c<56) return mkop(3,k);
@@ -535,6 +589,31 @@ int main(int argc,char **argv)
 			if(d<0) break;
 		}
 	}
+	else if(mode=="same") {
+		// the step the property is about, in isolation: request 1 stores v (family member f, small or big, exposed or
+		// not, with a bystander key), request 2 replaces v by v' of the same length *and changes nothing else*,
+		// request 3 reads.  Gaps cover "within 10 % of the period", "10 %..100 %" and no time at all.
+		static const int G[]={0,3,40};
+		for(int fam=0;fam<NFAM;fam++) for(int g=0;g<3;g++) for(int var=0;var<4;var++) {
+			bool big = (var&1)!=0, exposed = (var&2)!=0;
+			if(exposed && big) continue;
+			new_world("same",1);
+			std::vector<op> p1;
+			p1.push_back(mkop(0,"a",big,fam));
+			p1.push_back(mkop(0,"b",false,(fam+3)%NFAM));
+			if(exposed) p1.push_back(mkop(3,"a"));
+			request(0,p1);
+			tick(G[g]);
+			request(0,std::vector<op>(1,mkop(9,"a",false,-1)));
+			tick(G[(g+1)%3]);
+			request(0,std::vector<op>());
+			tick(2);
+			request(0,std::vector<op>(1,mkop(9,"b",false,-1)));    // and once more on the bystander, after an unchanged request
+			request(0,std::vector<op>());
+			end_world();
+			execs++;
+		}
+	}
 	else if(mode=="rand") {
 		if(argc<9) return 2;
 		int browsers=atoi(argv[6]), requests=atoi(argv[7]); long nexec=atol(argv[8]);
@@ -577,7 +656,7 @@ int main(int argc,char **argv)
 	}
 	else if(mode=="script") {
 		// lines: new <browsers> | tick d | req b op;op;... | steal b o | old b i | junk b <string> | drop b | restart b
-		// op: set:k:s|b  erase:k  clear  expose:k  hide:k  age:t  how:h  srv:0|1  reset
+		// op: set:k:s|b[:family]  same:k  erase:k  clear  expose:k  hide:k  age:t  how:h  srv:0|1  reset
 		std::string line;
 		bool open=false;
 		while(std::getline(std::cin,line)) {
@@ -598,7 +677,8 @@ int main(int argc,char **argv)
 					tok=tok.substr(s0); size_t e0=tok.find_last_not_of(" \t"); tok=tok.substr(0,e0+1);
 					std::vector<std::string> f; std::istringstream fs(tok); std::string x;
 					while(std::getline(fs,x,':')) f.push_back(x);
-					if(f[0]=="set") ops.push_back(mkop(0,f[1],f.size()>2&&f[2]=="b"));
+					if(f[0]=="set") ops.push_back(mkop(0,f[1],f.size()>2&&f[2]=="b",f.size()>3?atoi(f[3].c_str()):-1));
+					else if(f[0]=="same") ops.push_back(mkop(9,f[1],false,-1));
 					else if(f[0]=="erase") ops.push_back(mkop(1,f[1]));
 					else if(f[0]=="clear") ops.push_back(mkop(2));
 					else if(f[0]=="expose") ops.push_back(mkop(3,f[1]));
